@@ -99,8 +99,11 @@ def run(ctx):
     cfg = dict(cfg)
     starts = cfg.pop('starts', None)
     s = statespace.Search(ctx, 'expand', depth, cfg, chunk=8, starts=starts)
+    import time as _time
+    _t0 = _time.time()
     fp = s.run()
     c = s.coverage(fp)
+    c['wall_s'] = round(_time.time() - _t0, 1)
     if c['snapshot_vs_replay_mismatches']:
       from vfw.runner import HarnessError
       raise HarnessError('snapshot/replay mismatch in %s' % cfg)
